@@ -300,6 +300,9 @@ func worker(sh *ev.Shard) {
 		sh.Cur("scenario", pl.sc.String())
 		mk := mkHarness(pl.sc)
 		st := vsync.Explore(vsync.Config{Preemptions: pl.pb, Deviations: pl.db, Shard: sh.Index, Of: sh.N, ShardDepth: 2}, mk)
+		if st.Diverged > 0 {
+			sh.Count("replay_diverged", st.Diverged)
+		}
 		sh.Count("traces", st.Execs)
 		sh.Count("states", st.Points)
 		sh.Count("transitions", st.Points)
